@@ -478,6 +478,11 @@ def ref_pathop(pm, kind, slots, paths, extra=None):
         if r is None:
             return "errno 28"
         tail = {"mkdir": " 493", "readlink": f" {extra}"}.get(kind, "")
+        if kind == "stat":
+            # the property: the host operation corresponding to path_filestat_get is stat() when the SYMLINK_FOLLOW
+            # bit (bit 0) of the lookup flags is set and lstat() when it is clear
+            kind = "stat" if (extra or 0) & 1 else "lstat"
+            tail = ""
         return f"host {kind} {wp.hexs(r)}{tail}"
     if kind == "rename":
         if "oob" in slots:
@@ -620,7 +625,7 @@ def run_pathops(chk, h, scratch, pm, tier, broken, model_ok):
             if oi < 7:      # directed: the link `lnk` -> "file1" (5 bytes) read with shorter, exact-fit and longer buffers
                 kind, fd, slot, p = "readlink", fds[0], wp.hexs(slots[fds[0]]), b"lnk"
                 directed_bl = [5, 4, 6, 1, 3, 64, 5][oi]
-            stat_flags = rng.choice([0, 1, 1])
+            stat_flags = rng.choice([0, 0, 1, 1, 2, 3])
             if 7 <= oi < 17:   # directed: stat through symbolic links (last / inner component, dangling, chain), with and without SYMLINK_FOLLOW
                 kind, fd, slot = "stat", fds[0], wp.hexs(slots[fds[0]])
                 p, stat_flags = [(b"lnk", 1), (b"lnk", 0), (b"dlnk", 1), (b"dang", 1), (b"dang", 0), (b"chain", 1), (b"dlnk/file2", 1), (b"dlnk/file2", 0), (b"chain", 0), (b"dlnk", 0)][oi - 7]
@@ -630,8 +635,8 @@ def run_pathops(chk, h, scratch, pm, tier, broken, model_ok):
             extra = rng.choice([b"", b"", b"TRAILING-GARBAGE"])   # bytes behind the path belong to the NEXT object only for rename/symlink
             if kind in ("mkdir", "rmdir", "unlink", "stat"):
                 real = ask(f"{kind} {fd} {wp.hexs(p)} {len(p)}" + (f" {stat_flags}" if kind == "stat" else ""))
-                mline = f"pop {pm} {kind} {slot} {wp.hexs(p)} {len(p)}"
-                ref = ref_pathop(pm, kind, [sl(slot)], [p])
+                mline = f"pop {pm} {kind} {slot} {wp.hexs(p)} {len(p)}" + (f" {stat_flags}" if kind == "stat" else "")
+                ref = ref_pathop(pm, kind, [sl(slot)], [p], stat_flags if kind == "stat" else None)
             elif kind == "readlink":
                 bl = directed_bl if directed_bl is not None else rng.choice([0, 1, 3, 4, 5, 6, 9, 64, 5000])
                 real = ask(f"readlink {fd} {wp.hexs(p)} {len(p)} {bl}")
@@ -685,21 +690,27 @@ def run_pathops(chk, h, scratch, pm, tier, broken, model_ok):
                 continue
             ename, extra2 = twin_exec(m, a2b)
             if kind == "stat":
-                # what lstat (NOT following a link in the last component) would give
-                en_l, ex_l = twin_exec(m.replace("host stat ", "host lstat ", 1), a2b)
-                differs = (en_l, ex_l) != (ename, extra2)
-                like_lstat = differs and ((en_l is None and rt[0] == "0" and len(rt) >= 4 and (int(rt[1]), int(rt[2])) == ex_l)
-                                          or (en_l is not None and rt[0] == str(reference_wasi_errno(en_l, values))))
-                if like_lstat and stat_flags == 0:
-                    # without SYMLINK_FOLLOW WASI asks for the link itself; the pinned code follows anyway (a TODO in the
-                    # source) — either behaviour is accepted for flags = 0
-                    hist["stat-nofollow-flag-lstat"] = hist.get("stat-nofollow-flag-lstat", 0) + 1
-                    continue
-                if like_lstat:
-                    pv("pathop-stat-does-not-follow-symlink",
-                                  f"path_filestat_get with the SYMLINK_FOLLOW lookup flag on {p!r} (last component is a symbolic link): real `{real[:60]}` is what lstat() reports for the link itself "
-                                  f"({'errno ' + en_l if en_l else 'filetype, size = ' + str(ex_l)}); stat() of the resolved path — which the property names — gives {'errno ' + ename if ename else 'filetype, size = ' + str(extra2)}",
-                                  {"kind": "pathop-stat-symlink", "request": mline, "guest_path": p.hex(), "lookup_flags": stat_flags, "real": real,
+                # the twin performed the operation the property names for these flags (`m`: stat with SYMLINK_FOLLOW,
+                # lstat without); does the real answer instead look like the OTHER of the two?
+                named = m.split()[1]
+                other = "lstat" if named == "stat" else "stat"
+                en_o, ex_o = twin_exec(m.replace(f"host {named} ", f"host {other} ", 1), a2b)
+                differs = (en_o, ex_o) != (ename, extra2)
+                like_other = differs and ((en_o is None and rt[0] == "0" and len(rt) >= 4 and (int(rt[1]), int(rt[2])) == ex_o)
+                                          or (en_o is not None and rt[0] == str(reference_wasi_errno(en_o, values))))
+                if differs:
+                    hist[f"stat-flags{stat_flags & 1}-link-last"] = hist.get(f"stat-flags{stat_flags & 1}-link-last", 0) + 1
+                if like_other:
+                    desc = lambda en, ex: ("errno " + en) if en else "filetype, size = " + str(ex)
+                    if named == "stat":
+                        key, what = "pathop-stat-does-not-follow-symlink", (
+                            f"path_filestat_get WITH the SYMLINK_FOLLOW lookup flag on {p!r} (last component is a symbolic link): real `{real[:60]}` is what lstat() reports "
+                            f"for the link itself ({desc(en_o, ex_o)}); stat() of the resolved path — the operation the property names — gives {desc(ename, extra2)}")
+                    else:
+                        key, what = "pathop-stat-follows-symlink-without-flag", (
+                            f"path_filestat_get WITHOUT the SYMLINK_FOLLOW lookup flag (lookupFlags = {stat_flags}) on {p!r} (last component is a symbolic link): real `{real[:60]}` is what "
+                            f"stat() reports for the link's target ({desc(en_o, ex_o)}); lstat() of the resolved path — the operation the property names, what a guest's lstat() asks for — gives {desc(ename, extra2)}")
+                    pv(key, what, {"kind": "pathop-stat-symlink", "request": mline, "guest_path": p.hex(), "lookup_flags": stat_flags, "real": real,
                                    "expected": ("errno " + ename) if ename else str(extra2), "host_op": m}, True)
                     continue
             if ename is None:
@@ -721,12 +732,12 @@ def run_pathops(chk, h, scratch, pm, tier, broken, model_ok):
                                   {"kind": "pathop", "request": mline, "real": real, "expected": exp_ref, "host_op": m}, True)
             if m.split()[1] == "readlink":
                 readlink_frame(chk, drv if model_ok else None, broken, rt, bl, extra2 if ename is None else None, ename, mline, m)
-            if m.split()[1] == "stat":
+            if m.split()[1] in ("stat", "lstat"):
                 if rt[-1] != "frame1":
                     pv("pathop-stat-writes-outside-buffer", f"path_filestat_get wrote outside its 64-byte filestat buffer (or wrote although it failed): `{real[:80]}`",
                                   {"kind": "pathop", "request": mline, "real": real, "expected": "frame1", "host_op": m}, True)
                 if ename is None and (len(rt) < 4 or (int(rt[1]), int(rt[2])) != extra2):
-                    pv("pathop-stat-wrong-result", f"path_filestat_get: real `{real[:80]}`, stat of the resolved path gives (filetype, size) = {extra2}",
+                    pv("pathop-stat-wrong-result", f"path_filestat_get: real `{real[:80]}`, {m.split()[1]} of the resolved path gives (filetype, size) = {extra2}",
                                   {"kind": "pathop", "request": mline, "real": real, "expected": str(extra2), "host_op": m}, True)
         sa, sb = snapshot(os.path.join(base, "A")), snapshot(os.path.join(base, "B"))
         if sa != sb:
@@ -910,10 +921,13 @@ def replay(path):
             h.ask("reset")
             fd = h.ask("preopen " + wp.hexs(root.encode())).split()[1]
             rc = 0
-            for name, exp in ((b"lnk", "0 4 7"), (b"dlnk", "0 3"), (b"dang", "44")):
-                out = h.ask(f"stat {fd} {wp.hexs(name)} {len(name)} 1")
-                ok = out.startswith(exp)
-                print(f"replay: path_filestat_get(SYMLINK_FOLLOW, {name.decode()!r}): real `{out}` — required to start with `{exp}` (errno [filetype size]: the link's TARGET, NOENT for a dangling link) " + ("ok" if ok else "FAILS"))
+            # WASI file types: 3 directory, 4 regular file, 7 symbolic link; a link's size is the length of its target text
+            for name, fl, exp in ((b"lnk", 1, "0 4 7"), (b"dlnk", 1, "0 3"), (b"dang", 1, "44"),
+                                  (b"lnk", 0, "0 7 5"), (b"dlnk", 0, "0 7 3"), (b"dang", 0, "0 7 17"), (b"file1", 0, "0 4 7")):
+                out = h.ask(f"stat {fd} {wp.hexs(name)} {len(name)} {fl}")
+                ok = out.startswith(exp + " ") or out == exp
+                print(f"replay: path_filestat_get(lookupFlags={fl}{' = SYMLINK_FOLLOW' if fl else ''}, {name.decode()!r}): real `{out}` — required to start with `{exp}` "
+                      f"(errno [filetype size]: {'the link TARGET, NOENT for a dangling link' if fl else 'the link ITSELF'}) " + ("ok" if ok else "FAILS"))
                 if not ok:
                     rc = 1
         elif kind == "pathop-errno":
